@@ -464,6 +464,11 @@ def evaluate(prop, cases, with_model=True):
 
 def _worker(args):
     pid_, chunk, with_model = args
+    try:
+        import gc
+        gc.freeze()      # the forked worker inherits the parent's case objects: keep them out of collections
+    except Exception:
+        pass
     prop = load_prop(pid_)
     with _Silence():
         prop.setup()
@@ -678,12 +683,21 @@ def run_check(pid_, tier, seed):
             cand += list(prop.mutate(r["case"], srng))
         if corr_fail or tie_log:
             cand += list(prop.search_cases(srng))
-        if cand:
-            sr = evaluate_parallel(pid_, cand, with_model=False)
+        # the search is bounded in time (VERIF_SEARCH_BUDGET seconds, default 150): candidates are evaluated in
+        # chunks, neighbours of the disagreeing inputs first, until one fails the oracle or the budget is used up
+        sbudget = float(os.environ.get("VERIF_SEARCH_BUDGET", "150"))
+        ts = time.time()
+        searched = 0
+        for a in range(0, len(cand), 4000):
+            sr = evaluate_parallel(pid_, cand[a:a + 4000], with_model=False)
+            searched += len(sr)
             for r in sr:
                 if r["spec"] and not r.get("crash") and not excused(prop, known, r):
                     found = r
                     break
+            if found or time.time() - ts > sbudget:
+                break
+        cand = cand[:searched]
         if found:
             full = evaluate(prop, [found["case"]], with_model=False)[0]
             best = shrink_case(prop, known, full)
